@@ -15,9 +15,13 @@ Monitor : written from the property statement, evaluated on the real output by w
           handler's return value (the handlers echo the names and the ignore list they receive); a node of any
           other type gets the built-in form; the keys of a field-wise dumped instance are exactly the fields that
           are not named by the ignore lists, whose value is of a supported or handled type and is not `in` the
-          ignore lists; an object is serialised through its method iff the method has the name in force; dump
-          does not fail on programs free of the failure causes the generator knows (raising handler, unhashable
-          ignore entry, unset slot, missing attribute of a serialisation method).
+          ignore lists; an object is serialised through its method iff the method has the name in force, and then the
+          attributes the method returns are emitted with the values it returned, except those *named* by the ignore
+          lists; dump does not fail on programs free of the failure causes the generator knows (raising handler,
+          unhashable ignore entry, unset slot, missing attribute of a serialisation method).  Handlers return a
+          string, a list echoing their arguments, 7, None, [], "", a tuple or the object itself; values include
+          bytes (a built-in primitive for which a handler may be registered; outside the model's universe: the model
+          is consulted only where a handler replaces them).
 """
 import copy
 import datetime
@@ -35,10 +39,12 @@ import jsonrpclib.jsonclass as JC
 REQUIRED_THEOREMS = [
     "C20_handler_step", "C20_same_arguments_everywhere", "C20_handler_everywhere", "C20_handler_exact_type",
     "C20_none_entry_falls_through", "C20_builtin_when_unhandled", "C20_dumped_fields", "C20_ignore",
-    "C20_ignore_everywhere", "C20_names_defaults", "C20_names_frame", "C20_names_method",
+    "C20_ignore_fieldwise", "C20_ignore_everywhere", "C20_method_form", "C20_method_attrs_verbatim",
+    "C20_names_defaults", "C20_names_frame", "C20_names_method",
     "C20_names_ignore_attribute", "C20_unsupported_omitted", "C20_unsupported_no_failure",
     "C20_handled_type_is_known", "C20_gen_handlerLookupFirst", "C20_gen_dumpCalls", "C20_gen_handlerCallArgs",
-    "C20_gen_knownTypes", "C20_gen_ignoreAssembly", "C20_gen_dumpDefaults", "C20_gen_attributeNames",
+    "C20_gen_knownTypes", "C20_gen_ignoreAssembly", "C20_gen_serialIgnoreFilter", "C20_gen_dumpDefaults",
+    "C20_gen_attributeNames",
 ]
 
 METHOD_NAMES = ["_serialize", "to_json", "dump_me"]
@@ -57,6 +63,7 @@ DATES = [datetime.date(2020, 1, 2), datetime.date(1999, 12, 31), datetime.dateti
          datetime.datetime(1970, 1, 1), datetime.timedelta(days=2, seconds=3), datetime.timedelta(0)]
 
 SUPPORTED = (dict, list, set, frozenset, tuple, bytes, str, int, float, bool, type(None))
+BYTES = [b"", b"ab", b"\x00\xff", "é".encode("utf-8"), b"secret-bytes"]
 
 
 class Env20(jcenv.Env):
@@ -108,6 +115,12 @@ class ValueGen20(jcenv.ValueGen):
         self.missing_attr = False
         self.nonlist_ignore = False
 
+    def value(self, depth, allow_obj=True, obj_top=True):
+        # bytes: a built-in primitive type (utils.PRIMITIVE_TYPES) at any position
+        if self.rng.random() < 0.04:
+            return self.rng.choice(BYTES)
+        return jcenv.ValueGen.value(self, depth, allow_obj, obj_top)
+
     def instance(self, depth, cid=None):
         rng = self.rng
         env = self.env
@@ -125,9 +138,15 @@ class ValueGen20(jcenv.ValueGen):
             inst = c(*[self.plain() for _ in s["params"]])
             for a in s["attrs"]:
                 if self.clean or rng.random() < 0.95:
-                    setattr(inst, a, self.plain())
+                    # what the method returns is emitted as it is: also a tuple, an instance or a date
+                    r = rng.random()
+                    setattr(inst, a, self.plain() if r < 0.8 else ((1, "t") if r < 0.9 else self.instance(0)))
                 else:
                     self.missing_attr = True
+            if hasattr(inst, "__dict__") and rng.random() < 0.3:
+                # an instance-level ignore list on an object dumped through its method
+                names = list(s["attrs"]) + list(s["params"]) + ["zz", 1]
+                setattr(inst, self.ignore_attr, rng.sample(names, rng.randint(0, min(3, len(names)))))
             return inst
         inst = c()
         for n, _v in env.stored(inst):
@@ -159,6 +178,10 @@ def gen_env(ctx, rng, tag, cfg_names, clean):
     for s in specs:
         if s["kind"] == "serial" and rng.random() < 0.5:
             s["method"] = rng.choice(METHOD_NAMES)  # may differ from the name in force: dumped field-wise then
+        if s["kind"] == "serial" and rng.random() < 0.5:
+            # a class-level ignore list on a class with a serialisation method: names of its attributes
+            names = list(s["attrs"]) + list(s["params"]) + ["nothing"]
+            s["class_attrs"][cfg_names[1]] = rng.sample(names, rng.randint(0, min(3, len(names))))
         if s["kind"] == "bean" and s["class_attrs"].get(cfg_names[1]) is not None and rng.random() < 0.3:
             s["class_attrs"][cfg_names[1]] = s["class_attrs"][cfg_names[1]] + [rng.choice([1, None, "", 2.5, True, (1, 2)])]
         if s["kind"] == "bean" and rng.random() < 0.15:
@@ -197,7 +220,7 @@ def types_present(env, v, acc=None, depth=0):
 
 def handler_table(rng, env, clean, present):
     """[(type tag, handler id | None)] over user classes, library classes and built-in types."""
-    hf_ids = [0, 1, 1, 1, 3, None] + ([] if clean else [2])
+    hf_ids = [0, 1, 1, 1, 3, None, 4, 4, 5, 6, 7, 8] + ([] if clean else [2])
     tags = []
     user = [s["id"] for s in env.specs if not s.get("external")]
     ext = [s["id"] for s in env.specs if s.get("external")]
@@ -213,7 +236,7 @@ def handler_table(rng, env, clean, present):
         return []
     n = rng.randint(1, 4)
     pools = [present, present, present, bases or present, user, ext,
-             ["tuple", "str", "int", "list", "dict", "bool", "float", "NoneType", "set", "frozenset"]]
+             ["tuple", "str", "int", "list", "dict", "bool", "float", "NoneType", "set", "frozenset", "bytes"]]
     for _ in range(n):
         t = rng.choice(rng.choice(pools))
         if t not in tags:
@@ -275,7 +298,7 @@ class Monitor(object):
             return
         self.positions.add("builtin@" + pos + ":" + self.kind_of(obj))
         t = type(obj)
-        if obj is None or t in (bool, int, float, str):
+        if obj is None or t in (bool, int, float, str, bytes):
             if not (type(out) is t and (out == obj or out != out)):
                 self.hit("primitive-changed", path, "%r (no handler for %s) became %r" % (obj, t.__name__, out))
             return
@@ -307,12 +330,23 @@ class Monitor(object):
                      "instance of %s (no handler for exactly this type) became %r" % (t.__name__, out))
             return
         if hasattr(obj, self.sm):
-            # the serialisation method with the name in force decides
+            # the serialisation method with the name in force decides: constructor arguments and attributes as it
+            # returns them — minus the attributes named by the object's ignore list or the `ignore` argument
             params, attrs = getattr(obj, self.sm)()
-            exp = dict(attrs)
+            own = getattr(obj, self.ia, [])
+            if type(own) is not list:
+                return
+            ignore_list = own + self.ig
+            for name in attrs:
+                if any(type(e) is str and e == name for e in ignore_list) and name in out:
+                    self.hit("ignored-name-present:method", path,
+                             "attribute %r returned by the method %s is named by the ignore list %r but is a key of %r"
+                             % (name, self.sm, ignore_list, sorted(map(str, out))))
+            exp = dict((k, x) for k, x in attrs.items() if not any(type(e) is str and e == k for e in ignore_list))
             exp["__jsonclass__"] = [self.class_name(obj), params]
-            if not plain_equal(exp, out):
-                self.hit("method-output", path, "method %s returned (%r, %r) but the dump is %r" % (self.sm, params, attrs, out))
+            if not self.verbatim_dict(exp, out):
+                self.hit("method-output", path, "method %s returned (%r, %r), ignore list %r, but the dump is %r"
+                         % (self.sm, params, attrs, ignore_list, out))
             return
         if isinstance(obj, (decimal.Decimal, enum.Enum)):
             return
@@ -352,6 +386,22 @@ class Monitor(object):
         for k in out:
             if k != "__jsonclass__" and k not in stored:
                 self.hit("unknown-key", path, "key %r of the dump is not an attribute of the object" % (k,))
+
+    def verbatim_dict(self, exp, out):
+        """Same keys, and every value the very value expected (same object, or equal with the same types)."""
+        if type(out) is not dict or set(exp) != set(out):
+            return False
+        for k, x in exp.items():
+            y = out[k]
+            if x is y:
+                continue
+            try:
+                if self.env.enc(x, canon=True) != self.env.enc(y, canon=True):
+                    return False
+            except pyval.Unencodable:
+                if not (type(x) is type(y) and x == y):
+                    return False
+        return True
 
     def kind_of(self, obj):
         t = type(obj)
@@ -395,7 +445,7 @@ def run(ctx):
                 "library classes, built-in types, None entries) x configured/explicit method and attribute names x instances at "
                 "every nesting position (also directly as field values); distinct_nontrivial = distinct (set of (handled|builtin, "
                 "position, kind) seen by the monitor, outcome)")
-    n_envs = ctx.budget(26, 260)
+    n_envs = ctx.budget(70, 260)
     per_env = ctx.budget(40, 110)
     lines = []
     expect = []
@@ -427,10 +477,14 @@ def run(ctx):
     ctx.extra["unmodelled_cases"] = unmodelled
     ctx.assumptions.append("Python's attribute model, inspect.getmodule and the identity of library classes are represented by "
                            "the class environment handed to the model (harness/jcenv.py, Env20 in harness/props/c20.py); handlers "
-                           "are the four functions of jcenv.handler_functions, mirrored by driverH — the theorems hold for every "
-                           "handler function")
-    ctx.assumptions.append("for an object that defines the serialisation method in force, the method's (params, attrs) are emitted "
-                           "verbatim: ignore lists are not applied to them (the property's ignore clause is about field-wise dumped objects)")
+                           "are the nine functions of jcenv.handler_functions (a string, an echo of the arguments, raising, 7, None, "
+                           "[], a tuple, the object itself, \"\"), mirrored by driverH — the theorems hold for every handler function")
+    ctx.assumptions.append("for an object that defines the serialisation method in force, the values of the attributes the method "
+                           "returns are emitted as they are (no recursive dump, no handler, no test of the value against the ignore "
+                           "lists: C20_method_form); the ignore lists are applied to their names (C20_ignore)")
+    ctx.assumptions.append("bytes are outside the value universe of the model: a bytes node is an opaque instance with type tag "
+                           "'bytes' for it (replaced when a handler is registered for bytes, 'Unmodelled' otherwise: %d such cases "
+                           "were decided by the monitor alone)" % ctx.extra.get("bytes_monitor_only", 0))
 
 
 def _run_env(ctx, env, cfg_names, clean, per_env, lines, expect):
@@ -482,6 +536,12 @@ def _run_env(ctx, env, cfg_names, clean, per_env, lines, expect):
             dexp = impl.canon_outcome(k, d, env.hook, keep_arg=())
         except pyval.Unencodable:
             continue
+        if has_bytes(v, env):
+            ctx.hist["bytes/%s" % ("handled" if any(t == "bytes" and h is not None for t, h in handlers) else "builtin")] += 1
+        if direct_bytes_field(v, env):
+            # isinstance(value, SUPPORTED_TYPES) holds for bytes; the model has no bytes: monitor only
+            ctx.extra["bytes_monitor_only"] = ctx.extra.get("bytes_monitor_only", 0) + 1
+            continue
         lines.append("jcdump %s %s %s %s" % (pyval.enc(jcenv.lean_cfg(cfg.serialize_method, cfg.ignore_attribute, handlers)),
                                              lean_env, pyval.enc([sm_arg, ia_arg, ig_arg]), vtext))
         multi_raise = k == "err" and (raising or not clean)
@@ -492,6 +552,33 @@ def _run_env(ctx, env, cfg_names, clean, per_env, lines, expect):
                   kind="%s/%s/%s" % ("clean" if clean else "any", "handlers%d" % min(len(handlers), 3), outcome))
         for p in positions:
             ctx.hist["pos:" + p] += 1
+
+
+def has_bytes(v, env, depth=0):
+    if type(v) is bytes:
+        return True
+    if depth > 8:
+        return False
+    if isinstance(v, dict):
+        return any(has_bytes(x, env, depth + 1) for x in v.values())
+    if isinstance(v, (list, tuple, set, frozenset)):
+        return any(has_bytes(x, env, depth + 1) for x in v)
+    if type(v) in env.ids and env.by_id[env.ids[type(v)]]["kind"] in ("bean", "serial") and not env.by_id[env.ids[type(v)]].get("external"):
+        return any(has_bytes(x, env, depth + 1) for _n, x in env.stored(v))
+    return False
+
+
+def direct_bytes_field(v, env, depth=0):
+    """Some bean reachable from v holds bytes directly in an attribute."""
+    if depth > 8:
+        return False
+    if isinstance(v, dict):
+        return any(direct_bytes_field(x, env, depth + 1) for x in v.values())
+    if isinstance(v, (list, tuple, set, frozenset)):
+        return any(direct_bytes_field(x, env, depth + 1) for x in v)
+    if type(v) in env.ids and env.by_id[env.ids[type(v)]]["kind"] in ("bean", "serial") and not env.by_id[env.ids[type(v)]].get("external"):
+        return any(type(x) is bytes or direct_bytes_field(x, env, depth + 1) for _n, x in env.stored(v))
+    return False
 
 
 def _specs_plain(env):
@@ -529,6 +616,8 @@ def replay(payload):
                 return [d for d in DATES if type(d) is datetime.timedelta and str(d) == fd["value"]][0]
             if cls in EXT_TYPES:
                 return EXT_TYPES[cls].fromisoformat(fd["value"])
+            if cls == "bytes":
+                return bytes.fromhex(fd["hex"])
             s = env.by_id[cls]
             c = env.cls[cls]
             if s["kind"] == "decimal":
